@@ -336,6 +336,10 @@ func c08History(c *vf.Ctx, cs *c08Case, file []byte, pf *gen.ProgFile, seq []c08
 	rs := bytes.NewReader(file)
 	fl, err2 := mp4.DecodeFile(rs, mp4.WithDecodeMode(mp4.DecModeLazyMdat))
 	if err1 != nil || err2 != nil {
+		if (err1 == nil) != (err2 == nil) {
+			c08Fail(c, cs, "decode disagreement", "both modes accept the same files", map[string]interface{}{"case": cs, "mem": fmt.Sprint(err1), "lazy": fmt.Sprint(err2)})
+			return false
+		}
 		vf.Harness("c08 history: %v %v", err1, err2)
 	}
 	mm, ml := c08Mdats(fm), c08Mdats(fl)
